@@ -38,6 +38,15 @@ def rigidity_case(cid, rng, train_sizes, test_sizes, comp, alpha, with_witness=T
     if not any(np.any(t) for t in train):
         train[0][0, 0] = 1
     test = [rng.integers(-r, r + 1, size=(k, d)) for k in test_sizes]
+    if preset is None and d >= 2 and rng.random() < 0.2:
+        # a feature channel that never occurs in training but does in the test environments (an unseen species)
+        jz = int(rng.integers(d))
+        for tt in train:
+            tt[:, jz] = 0
+        if not any(np.any(tt) for tt in train):
+            train[0][0, (jz + 1) % d] = 1
+        for tt in test:
+            tt[:, jz] = np.where(tt[:, jz] == 0, 1, tt[:, jz])
     if preset is not None:
         train, test = [np.array(t) for t in preset[0]], [np.array(t) for t in preset[1]]
     for t in test:
